@@ -200,6 +200,22 @@ CLAIMED = {
              '(A-exec); middleware-provided values are covered by the text stand-in + scoping, not by a K contract.',
         technique='contract-based: pyvc VCs over the real AST discharged by z3 (K, at-call K, L, T); bounded enumeration '
                   'for the generated text', design_ref='DESIGN.md 7 C02'),
+    'C13': dict(
+        text='K: Application._dispatch_wsgi (exactly one WSGI callable is invoked, once -- the BaseResponse dispatch '
+             'returned or the RerouteWSGI target -- with the caller\'s own environ and start_response objects, its '
+             'result/exception relayed as is, the request built from this environ, nothing stored into environ); '
+             'check_valid_wsgi (TypeError iff not callable or first two parameter names are not environ, start_response); '
+             '_safe_wrap_wsgi (no wrapper: inner itself, nothing called; wrapper: called once with inner, validated result '
+             'returned); _get_all_middlewares (type-duplicate-free, first application-level middleware outermost; loop '
+             'invariants over a reversed symbolic sequence); static.build_file_response (opened file owned by the response '
+             'or closed on every exceptional exit). Bounded stand-in (labelled bounded): real Applications under '
+             'wsgiref.validate for 13 paths x 4 methods x 3 Accept x 3 middleware sets, 6 wrapper-stack configurations, '
+             'RerouteWSGI as endpoint and raised.',
+        note='start_response-once / status line / header types / HEAD body / close() are Werkzeug behaviour (A-wz-resp, '
+             'assumed; exercised by the bounded suite). Application.__init__ (the fold of _safe_wrap_wsgi over the list) is '
+             'not under contract. F8 fixed (no routes at construction); F8b known (sub-application added after construction).',
+        technique='contract-based: pyvc VCs over the real AST discharged by z3 (K) + bounded native WSGI validator suite',
+        design_ref='DESIGN.md 7 C13'),
 }
 
 REASONS = {}
